@@ -128,16 +128,21 @@ type verifMemBackend struct {
 	entered chan struct{} // signalled when a Write is blocked
 	release chan struct{} // closed to let blocked Writes proceed
 	block   atomic.Bool
+	waiting atomic.Int64 // goroutines currently blocked inside Write
 	fail    func(path string) bool
 }
 
 func (m *verifMemBackend) Write(ctx context.Context, path string, data []byte) error {
-	if m.block.Load() {
+	// only flushes that carry a deadline block (flush workers, Close, the age flusher); the
+	// synchronous flushes of a writer / FlushAll caller use the caller's context
+	if _, hasDeadline := ctx.Deadline(); hasDeadline && m.block.Load() {
 		select {
 		case m.entered <- struct{}{}:
 		default:
 		}
+		m.waiting.Add(1)
 		<-m.release
+		m.waiting.Add(-1)
 	}
 	if m.fail != nil && m.fail(path) {
 		return fmt.Errorf("verif: injected storage failure for %s", path)
